@@ -82,3 +82,20 @@ def crosscheck(programs, rps):
         if got != [_strip(st) for st in programs[i]["mods"][m]]:
             raise common.ToolError("renderer cross-check failed (tree2ast(render(p)) != p) on %r" % t[:300])
     return good
+
+
+def resolve(programs, chunk=150, timeout=1800):
+    """ResolveMC.tla on the programs: the steps of resolve() against the declarative binding relation (invariants), and the
+    binding tables as CASE lines [prog, mod, err, table].  Returns (cases, results)."""
+    cases = []
+    results = []
+    for lo in range(0, len(programs), chunk):
+        part = programs[lo:lo + chunk]
+        path = _write(part, "resolve")
+        try:
+            r = run_tlc("ResolveMC", "Resolve_file.cfg", workers=8, timeout=timeout, env_extra={"PROGRAMS": path})
+        finally:
+            os.unlink(path)
+        results.append(r)
+        cases.extend(r.cases)
+    return cases, results
